@@ -25,8 +25,10 @@ package rules
 import (
 	"bytes"
 	"fmt"
+	"strings"
 	"unicode/utf8"
 
+	compact_time "github.com/kstenerud/go-compact-time"
 	"github.com/kstenerud/go-concise-encoding/ce/events"
 	"github.com/kstenerud/go-concise-encoding/internal/chars"
 	"github.com/kstenerud/go-concise-encoding/internal/common"
@@ -279,6 +281,51 @@ func (_this *Context) ValidateComment(isMultiline bool, contents []byte) {
 	}
 	if len(contents) > 0 && contents[len(contents)-1] == '/' && !endsWithNestedComment {
 		panic(fmt.Errorf("multiline comment cannot end with a slash"))
+	}
+}
+
+// A media type must be spellable in a text document: a type that starts with
+// a letter, a slash, and a subtype.
+func (_this *Context) ValidateMediaType(mediaType string) {
+	isMediaTypeChar := func(ch byte) bool {
+		switch {
+		case ch >= 'a' && ch <= 'z', ch >= 'A' && ch <= 'Z', ch >= '0' && ch <= '9':
+			return true
+		}
+		return strings.IndexByte("!#$%&'*+.^_`|~{}-", ch) >= 0
+	}
+
+	slash := strings.IndexByte(mediaType, '/')
+	valid := slash > 0 && slash < len(mediaType)-1 &&
+		(mediaType[0] >= 'a' && mediaType[0] <= 'z' || mediaType[0] >= 'A' && mediaType[0] <= 'Z')
+	for i := 0; valid && i < len(mediaType); i++ {
+		if i != slash && !isMediaTypeChar(mediaType[i]) {
+			valid = false
+		}
+	}
+	if !valid {
+		panic(fmt.Errorf("%q is not a valid media type", mediaType))
+	}
+}
+
+// A time must have all of its fields in range, and an area/location time zone
+// must be spellable in a text document.
+func (_this *Context) ValidateTime(value compact_time.Time) {
+	if err := value.Validate(); err != nil {
+		panic(err)
+	}
+	if value.Type != compact_time.TimeTypeDate && value.Timezone.Type == compact_time.TimezoneTypeAreaLocation {
+		for _, name := range []string{value.Timezone.ShortAreaLocation, value.Timezone.LongAreaLocation} {
+			for i := 0; i < len(name); i++ {
+				ch := name[i]
+				switch {
+				case ch >= 'A' && ch <= 'Z':
+				case i > 0 && (ch >= 'a' && ch <= 'z' || ch >= '0' && ch <= '9' || strings.IndexByte("_-./+", ch) >= 0):
+				default:
+					panic(fmt.Errorf("%q is not a valid time zone area/location", name))
+				}
+			}
+		}
 	}
 }
 
